@@ -49,7 +49,26 @@ PanicForms == {"get_value", "borrow", "borrow_value", "borrow_mut", "borrow_valu
 ReadForms  == TryForms \cup PanicForms
 WriteForms == {"try_borrow_mut", "try_borrow_value_mut", "borrow_mut", "borrow_value_mut"}
 
-Missing(f) == IF f \in PanicForms \/ f = "take" THEN R("panic", NoVal) ELSE R("notfound", NoVal)
+(* The convenience accessors of `State` (src/state/mod.rs).  Each one is a lookup of ONE fixed state type       *)
+(* through the whole chain (only `State` has them: no ancestor form), in a fixed borrow mode, and with a fixed  *)
+(* way of refusing: the readers that answer an Option say None, the others are wrappers of panicking forms.     *)
+(* Those in AccGuard hand the guard out (it lives as long as the caller keeps it).                              *)
+AccSh     == {"state.iterations", "state.evaluations", "state.best_individual", "state.best_objective_value",
+              "state.populations", "state.log"}
+AccEx     == {"state.populations_mut", "state.random_mut"}
+AccForms  == AccSh \cup AccEx
+AccOption == {"state.best_individual", "state.best_objective_value"}
+AccPanic  == AccForms \ AccOption
+AccGuard  == {"state.best_individual", "state.populations", "state.populations_mut", "state.random_mut", "state.log"}
+AccType(f) == CASE f = "state.iterations" -> "Iterations"
+                [] f = "state.evaluations" -> "Evaluations"
+                [] f \in {"state.best_individual", "state.best_objective_value"} -> "BestIndividual"
+                [] f \in {"state.populations", "state.populations_mut"} -> "Populations"
+                [] f = "state.random_mut" -> "Random"
+                [] f = "state.log" -> "Log"
+
+Missing(f) == IF f \in AccOption THEN R("none", NoVal)
+              ELSE IF f \in PanicForms \cup AccPanic \/ f = "take" THEN R("panic", NoVal) ELSE R("notfound", NoVal)
 
 Insert(t, v, d) ==
     /\ res' = (IF scopes[View(d)][t] = NoVal THEN R("none", NoVal)
